@@ -412,7 +412,7 @@ def clip_border_segment(stream, style, width, side, border_box,
             chl1 = corner_half_length(a1, b1)
             chl2 = corner_half_length(a2, b2)
             length = line_length + chl1 + chl2
-            dash_length = round(length / dash)
+            dash_length = max(1, round(length / dash))
             if rounded1 and rounded2:
                 # 2x dashes
                 dash = length / (dash_length + dash_length % 2)
